@@ -48,12 +48,14 @@ Theorem C17_attempts :
 Proof. exact round_trip_attempts. Qed.
 Print Assumptions C17_attempts.
 
-(* the auth client sends at most twice, each send bounded the same way *)
+(* the auth client sends at most three times (twice with an empty token cache),
+   each send bounded the same way *)
 Theorem C17_auth_attempts :
-  forall p cn bd sc,
-    let a := auth_do p cn bd sc in
+  forall warm p cn bd sc,
+    let a := auth_do warm p cn bd sc in
     1 <= Z.of_nat (length (attempts (a_first a))) <= Z.max 0 (p_max_retry p) + 1 /\
-    Z.of_nat (length (attempts (a_second a))) <= Z.max 0 (p_max_retry p) + 1.
+    Z.of_nat (length (attempts (a_second a))) <= Z.max 0 (p_max_retry p) + 1 /\
+    Z.of_nat (length (attempts (a_third a))) <= Z.max 0 (p_max_retry p) + 1.
 Proof. exact auth_do_attempts. Qed.
 Print Assumptions C17_auth_attempts.
 
@@ -89,12 +91,14 @@ Theorem C17_received_prefix :
 Proof. exact received_prefix. Qed.
 Print Assumptions C17_received_prefix.
 
-(* the same through the auth client: first send, re-send after the challenge *)
+(* the same through the auth client: first send and every re-send after a challenge
+   (cached token, fresh token) *)
 Theorem C17_body_complete_auth :
-  forall p cn bd sc,
+  forall warm p cn bd sc,
     wf_body bd ->
-    let a := auth_do p cn bd sc in
-    forall i t got, nth_error (attempts (a_first a) ++ attempts (a_second a)) i = Some (t, got) ->
+    let a := auth_do warm p cn bd sc in
+    forall i t got,
+      nth_error (attempts (a_first a) ++ attempts (a_second a) ++ attempts (a_third a)) i = Some (t, got) ->
       got = received bd (nth (0 + i) sc default_beh).
 Proof. exact auth_do_bodies. Qed.
 Print Assumptions C17_body_complete_auth.
@@ -120,10 +124,10 @@ Print Assumptions C17_oneshot_is_not_replayable.
 
 (* ... and the auth client answers a challenge with the rewind error, never a re-send *)
 Theorem C17_not_replayable_auth :
-  forall p cn bd sc,
+  forall warm p cn bd sc,
     (forall st', rewind bd st' = RwNoGetBody \/ rewind bd st' = RwGetBodyErr) ->
-    let a := auth_do p cn bd sc in
-    length (attempts (a_first a)) = 1%nat /\ a_second a = [] /\
+    let a := auth_do warm p cn bd sc in
+    length (attempts (a_first a)) = 1%nat /\ a_second a = [] /\ a_third a = [] /\
     (a_res a = RNotRewindable \/ a_res a = RGetBodyFailed \/
      a_res a = o_res (round_trip p cn bd (init_state bd) sc 0)) /\
     (challenged (o_res (round_trip p cn bd (init_state bd) sc 0)) = true ->
@@ -222,17 +226,27 @@ Proof. vm_compute. repeat split; reflexivity. Qed.
 
 (* a one-shot body and a Basic challenge: the rewind error, one request *)
 Example ex_oneshot_auth :
-  let a := auth_do ex_policy None (mkBody KOneShot (b "blob")) [mkBeh (OStatus 401 [] 1%N) None 0] in
+  let a := auth_do false ex_policy None (mkBody KOneShot (b "blob")) [mkBeh (OStatus 401 [] 1%N) None 0] in
   a_res a = RNotRewindable /\ a_second a = [] /\ length (attempts (a_first a)) = 1%nat.
 Proof. vm_compute. repeat split; reflexivity. Qed.
 
 (* a replayable body and a Bearer challenge after a retry: four complete bodies *)
 Example ex_auth :
-  let a := auth_do ex_policy None ex_body
+  let a := auth_do false ex_policy None ex_body
                    [mkBeh (OStatus 503 [] 0%N) None 0; mkBeh (OStatus 401 [] 2%N) None 0;
                     mkBeh (OStatus 502 [] 0%N) None 0; mkBeh (OStatus 201 [] 0%N) None 0] in
   a_res a = RResp 201 0%N /\
   map snd (attempts (a_first a) ++ attempts (a_second a)) = [b "manifest"; b "manifest"; b "manifest"; b "manifest"].
+Proof. vm_compute. split; reflexivity. Qed.
+
+(* warm token cache: cached token refused, fresh token accepted: three sends, whole bodies *)
+Example ex_auth_warm :
+  let a := auth_do true ex_policy None ex_body
+                   [mkBeh (OStatus 401 [] 2%N) None 0; mkBeh (OStatus 401 [] 2%N) None 0;
+                    mkBeh (OStatus 201 [] 0%N) None 0] in
+  a_res a = RResp 201 0%N /\
+  map snd (attempts (a_first a) ++ attempts (a_second a) ++ attempts (a_third a))
+  = [b "manifest"; b "manifest"; b "manifest"].
 Proof. vm_compute. split; reflexivity. Qed.
 
 (* Retry-After: 2 within [100ns, 3s]: honoured *)
